@@ -9,21 +9,21 @@ def plan(pid, tier, seed):
     quick = tier == "quick"
     if quick:
         mc = [
-            {"module": "Deps", "cfg": "Deps_MC_quick.cfg", "emit": True, "sample": 220, "properties": PROPS_ALL, "timeout": 600},
-            {"module": "Deps", "cfg": "Deps_Gen_unused_quick.cfg", "emit": True, "sample": 160, "properties": PROPS_ALL, "timeout": 600},
+            {"module": "Deps", "cfg": "Deps_MC_quick.cfg", "emit": True, "sample": 200, "properties": PROPS_ALL, "timeout": 600},
+            {"module": "Deps", "cfg": "Deps_Gen_unused_quick.cfg", "emit": True, "sample": 140, "properties": PROPS_ALL, "timeout": 600},
         ]
     else:
         mc = [
-            {"module": "Deps", "cfg": "Deps_MC_thorough.cfg", "emit": True, "sample": 5000, "properties": PROPS_ALL, "timeout": 3000,
+            {"module": "Deps", "cfg": "Deps_MC_thorough.cfg", "emit": True, "sample": 4000, "properties": PROPS_ALL, "timeout": 3000,
              "coverage": True},
-            {"module": "Deps", "cfg": "Deps_Gen_unused_thorough.cfg", "emit": True, "sample": 2000, "properties": PROPS_ALL, "timeout": 3000},
-            {"module": "Deps", "cfg": "Deps_Gen_unused2_thorough.cfg", "emit": True, "sample": 2000, "properties": PROPS_ALL, "timeout": 3000},
+            {"module": "Deps", "cfg": "Deps_Gen_unused_thorough.cfg", "emit": True, "sample": 1500, "properties": PROPS_ALL, "timeout": 3000},
+            {"module": "Deps", "cfg": "Deps_Gen_unused2_thorough.cfg", "emit": True, "sample": 1500, "properties": PROPS_ALL, "timeout": 3000},
         ]
     return {
         "harness": "deps",
         "mc": mc,
         "gen": [],
-        "rand": 170 if quick else 3000,
+        "rand": 150 if quick else 2500,
         "trace": TRACE,
         "run_timeout": 3000,
     }
